@@ -11,16 +11,6 @@ set_option linter.unusedVariables false
 namespace C18
 open Model Model.Vox
 
-/-- value of `(g.map f)` at an in-grid cell -/
-private theorem getC_map (ni nj : Nat) (g : Array VV) (f : VV → VV) (hs : g.size = ni * nj) (p : Nat × Nat)
-    (hp : InB ni nj p) : getC ni (g.map f) p = f (getC ni g p) := by
-  unfold getC
-  have h := idx_lt hp.1 hp.2
-  rw [Array.getD_eq_getD_getElem?, Array.getD_eq_getD_getElem?, Array.getElem?_map]
-  have : g[idx ni p.1 p.2]? = some (g[idx ni p.1 p.2]'(by rw [hs]; exact h)) := by
-    simp [hs, h]
-  rw [this]; rfl
-
 /-- **the fuel of every `propagate_values` loop the voxelizer runs suffices** (fuel = number of cells + 1): each sweep
 that walks a voxel turns at least one `…ToWalk` cell into its final value, which no walk ever overwrites.  Stated for
 the three parameter sets the code uses (outside pass of the plain flood fill; inside and outside passes of
